@@ -507,8 +507,12 @@ func genSpelling(t *rapid.T, s *Sheet) {
 	switch rapid.IntRange(0, 9).Draw(t, "dimension") {
 	case 0, 1, 2:
 		s.Dimension = ""
-	case 3, 4:
+	case 3:
 		s.Dimension = "A1" // stale: the element is informational
+	case 4:
+		// stale in range form: smaller than the used range (rows and columns were added by a tool that left the
+		// element alone), or larger
+		s.Dimension = rapid.SampledFrom([]string{"A1:B2", "A1:A1", "B2:C3", "A1:XFD1048576", "C3:D4"}).Draw(t, "staleDimension")
 	default:
 		s.Dimension = exactDimension(*s)
 	}
